@@ -7,9 +7,9 @@ Definition gam (x : aval) (c : cval) : Prop :=
   match x, c with
   | AUninit, CUninit => True
   | ANull u, CNull u' => ble u' u = true
-  | AObj k b, CObj k' b' => k = k' /\ ble b b' = true
+  | AObj k b, CObj k' b' => k = k' /\ bor_leb b b' = true
   | AMaybe k b u, CNull u' => ble u' u = true
-  | AMaybe k b u, CObj k' b' => k = k' /\ ble b b' = true
+  | AMaybe k b u, CObj k' b' => k = k' /\ bor_leb b b' = true
   | ADead, c => owned c = 0
   | _, _ => False
   end.
@@ -20,16 +20,31 @@ Ltac bsimp :=
   repeat match goal with
   | H : _ && _ = true |- _ => apply andb_prop in H; destruct H
   | H : Nat.eqb _ _ = true |- _ => apply Nat.eqb_eq in H
+  | H : Pos.eqb _ _ = true |- _ => apply Pos.eqb_eq in H
   | H : _ /\ _ |- _ => destruct H
   end.
+
+Lemma bor_leb_refl : forall b, bor_leb b b = true.
+Proof. destruct b; simpl; auto. apply Pos.eqb_refl. Qed.
+
+Lemma bor_leb_trans : forall c b a, bor_leb c b = true -> bor_leb b a = true -> bor_leb c a = true.
+Proof.
+  intros c b a H1 H2. destruct c, b, a; simpl in *; try discriminate; auto.
+  apply Pos.eqb_eq in H1. apply Pos.eqb_eq in H2. subst. apply Pos.eqb_refl.
+Qed.
+
+Lemma valid_le : forall b c, bor_leb b c = true -> valid b = true -> valid c = true.
+Proof. intros b c H V. destruct b, c; simpl in *; auto; discriminate. Qed.
+
+Lemma ble_trans : forall a b c, ble a b = true -> ble b c = true -> ble a c = true.
+Proof. intros a b c. destruct a, b, c; simpl; auto. Qed.
 
 Lemma ale_sound : forall x y c, ale x y = true -> gam x c -> gam y c.
 Proof.
   intros x y c H G.
   destruct x as [|u|k b|k b u|], y as [|u'|k' b'|k' b' u'|], c as [|cu|ck cb];
     simpl in *; try discriminate; try contradiction; try exact I; bsimp; subst;
-    unfold ble in *; try lia;
-    repeat match goal with b : bool |- _ => destruct b end; simpl in *; auto; try discriminate; try lia.
+    try lia; try (split; [reflexivity|]); eauto using bor_leb_trans, ble_trans.
 Qed.
 
 Lemma gam_owned0 : forall x c, aowned x = 0 -> gam x c -> owned c = 0.
@@ -67,31 +82,95 @@ Proof.
   intros a1 a2 s H G v. eapply ale_sound. apply ale_state_get; eassumption. apply G.
 Qed.
 
+Lemma usable_sound : forall k b cb, (0 <? k) || valid b = true -> bor_leb b cb = true -> (0 <? k) || valid cb = true.
+Proof.
+  intros k b cb H L. apply orb_true_iff in H. apply orb_true_iff. destruct H; auto.
+  right. eapply valid_le; eauto.
+Qed.
+
 Lemma areadable_sound : forall x c, areadable x = true -> gam x c -> readable c = true.
 Proof.
   intros x c H G. destruct x as [|u|k b|k b u|], c as [|cu|ck cb]; simpl in *;
-    try discriminate; try contradiction; bsimp; subst; unfold ble in *;
-    repeat match goal with b : bool |- _ => destruct b end; simpl in *; auto; try discriminate;
-    try (destruct ck; simpl in *; auto; discriminate).
+    try discriminate; try contradiction; bsimp; subst; eauto using usable_sound;
+    unfold ble in *; repeat match goal with b : bool |- _ => destruct b end; simpl in *; auto; discriminate.
 Qed.
 
-Lemma arelease_sound : forall strict v a a' s,
-  arelease strict v a = inl a' -> gams a s ->
-  exists s', crelease strict v s = Next s' /\ gams a' s'.
+(* ---- borrow bookkeeping ---------------------------------------------------------------------- *)
+Definition aret_f (w : val) (nb : bor) (x : aval) : aval :=
+  match x with
+  | AObj k (BFrom w') => if Pos.eqb w' w then AObj k nb else x
+  | AMaybe k (BFrom w') u => if Pos.eqb w' w then AMaybe k nb u else x
+  | _ => x
+  end.
+
+Lemma aget_aretarget : forall w nb a v, aget (aretarget w nb a) v = aret_f w nb (aget a v).
 Proof.
-  intros strict v a a' s H G. unfold arelease in H. pose proof (G v) as Gv. unfold crelease.
+  intros. unfold aget, aretarget, PositiveMap.map. rewrite PositiveMap.gmapi.
+  destruct (PositiveMap.find v a); reflexivity.
+Qed.
+
+(* weakening only: the concrete state is unchanged *)
+Lemma gams_retarget_none : forall w a s, gams a s -> gams (aretarget w BNone a) s.
+Proof.
+  intros w a s G v. rewrite aget_aretarget. specialize (G v).
+  destruct (aget a v) as [|u|k b|k b u|]; simpl; auto;
+    destruct b as [| |w']; simpl; auto; destruct (Pos.eqb w' w); auto;
+    destruct (s v); simpl in *; auto; destruct G; split; auto.
+Qed.
+
+Lemma bor_le_always : forall b, bor_leb b BAlways = true.
+Proof. destruct b; reflexivity. Qed.
+
+Ltac retarget_case L :=
+  simpl in *; try discriminate;
+  try match goal with H : Pos.eqb _ _ = true |- _ => apply Pos.eqb_eq in H; subst end;
+  repeat match goal with |- context [Pos.eqb ?x ?y] => destruct (Pos.eqb x y) end;
+  simpl; try split; auto using bor_le_always, Pos.eqb_refl.
+
+Lemma gams_retarget : forall w nba nbc a s, bor_leb nba nbc = true -> gams a s ->
+  gams (aretarget w nba a) (retarget w nbc s).
+Proof.
+  intros w nba nbc a s L G v. rewrite aget_aretarget. specialize (G v). unfold retarget.
+  destruct (aget a v) as [|u|k b|k b u|], (s v) as [|cu|ck cb]; simpl in *; try contradiction; auto.
+  - destruct G as [<- Hb]. destruct b as [| |w1], cb as [| |w2]; retarget_case L.
+  - destruct b as [| |w1]; retarget_case L.
+  - destruct G as [<- Hb]. destruct b as [| |w1], cb as [| |w2]; retarget_case L.
+  - destruct cb as [| |w2]; retarget_case L.
+Qed.
+
+Lemma aroot_sound : forall a s w, gams a s -> bor_leb (aroot a w) (croot s w) = true.
+Proof.
+  intros a s w G. unfold aroot, croot. specialize (G w).
+  destruct (aget a w) as [|u|k b|k b u|], (s w) as [|cu|ck cb]; simpl in *; try contradiction; auto;
+    try (destruct k; reflexivity).
+  destruct G as [<- Hb]. destruct k; auto. simpl. apply Pos.eqb_refl.
+Qed.
+
+Lemma inherit_le : forall b cb succ, bor_leb b cb = true -> bor_leb (inherit b succ) (inherit cb succ) = true.
+Proof. intros b cb succ H. destruct succ; simpl; auto. apply Pos.eqb_refl. Qed.
+
+Lemma arelease_sound : forall strict v succ a a' s,
+  arelease strict v succ a = inl a' -> gams a s ->
+  exists s', crelease strict v succ s = Next s' /\ gams a' s'.
+Proof.
+  intros strict v succ a a' s H G. unfold arelease in H. pose proof (G v) as Gv. unfold crelease.
   destruct (aget a v) as [|u|k b|k b u|] eqn:E; try discriminate.
   - (* ANull *) destruct strict; try discriminate. inversion H; subst.
     destruct (s v); simpl in Gv; try contradiction. eauto.
   - (* AObj *) destruct k; try discriminate. inversion H; subst.
     destruct (s v) as [|cu|ck cb]; simpl in Gv; try contradiction. destruct Gv as [<- Hb].
-    eexists; split; [reflexivity|]. apply gams_set; auto. simpl. auto.
+    eexists; split; [reflexivity|].
+    assert (G1 : gams (aset v (AObj k b) a) (cset v (CObj k cb) s)) by (apply gams_set; simpl; auto).
+    destruct k; auto. apply gams_retarget; auto. apply inherit_le; auto.
   - (* AMaybe *) destruct k; destruct strict; try discriminate. inversion H; subst.
     destruct (s v) as [|cu|ck cb] eqn:E2; simpl in Gv; try contradiction.
-    + eexists; split; [reflexivity|]. intro w. rewrite aget_aset. destruct (Pos.eqb_spec w v).
-      * subst. rewrite E2. simpl. exact Gv.
-      * apply G.
-    + destruct Gv as [<- Hb]. eexists; split; [reflexivity|]. apply gams_set; auto. simpl. auto.
+    + eexists; split; [reflexivity|].
+      assert (G1 : gams (aset v (AMaybe k b u) a) s).
+      { intro w. rewrite aget_aset. destruct (Pos.eqb_spec w v); [subst; rewrite E2; simpl; exact Gv | apply G]. }
+      destruct k; auto. apply gams_retarget_none; auto.
+    + destruct Gv as [<- Hb]. eexists; split; [reflexivity|].
+      assert (G1 : gams (aset v (AMaybe k b u) a) (cset v (CObj k cb) s)) by (apply gams_set; simpl; auto).
+      destruct k; auto. apply gams_retarget; auto.
 Qed.
 
 Lemma owned0_of : forall a s d, gams a s -> Nat.eqb (aowned (aget a d)) 0 = true -> Nat.eqb (owned (s d)) 0 = true.
@@ -103,18 +182,22 @@ Lemma amicro_sound : forall m a a' s oc,
   amicro m a = inl a' -> gams a s ->
   cmicro m oc s = Blocked \/ exists s', cmicro m oc s = Next s' /\ gams a' s'.
 Proof.
-  intros m a a' s oc H G. destruct m as [v|v|v x|v|v|d own maynull|d|d sv mv own undef]; simpl in *.
+  intros m a a' s oc H G. destruct m as [v|v|v|v|v x|v|v|d own maynull ow|d|d sv mv own undef]; simpl in *.
   - (* MRead *) destruct (areadable (aget a v)) eqn:E; try discriminate. inversion H; subst.
     right. rewrite (areadable_sound _ _ E (G v)). eauto.
+  - (* MTouch *) pose proof (G v) as Gv. right.
+    destruct (aget a v) as [|u|k b|k b u|] eqn:E; try discriminate;
+      try (destruct u; try discriminate); inversion H; subst;
+      destruct (s v) as [|cu|ck cb]; simpl in Gv; try contradiction; eauto;
+      destruct cu; simpl in Gv; try discriminate; eauto.
   - (* MRelease *) right. eapply arelease_sound; eauto.
+  - (* MForget *) right. eapply arelease_sound; eauto.
   - (* MDec *) right. eapply arelease_sound; eauto.
   - (* MInc *) pose proof (G v) as Gv. destruct (aget a v) as [|u|k b|k b u|] eqn:E; try discriminate.
-    destruct ((0 <? k) || b) eqn:E2; try discriminate. inversion H; subst.
+    destruct ((0 <? k) || valid b) eqn:E2; try discriminate. inversion H; subst.
     destruct (s v) as [|cu|ck cb] eqn:E3; simpl in Gv; try contradiction. destruct Gv as [<- Hb].
-    right. simpl.
-    assert (Hu : (0 <? k) || cb = true).
-    { unfold ble in Hb. destruct b, cb, (0 <? k); simpl in *; auto; discriminate. }
-    rewrite Hu. eexists; split; [reflexivity|]. apply gams_set; auto. simpl. auto.
+    right. simpl. rewrite (usable_sound _ _ _ E2 Hb).
+    eexists; split; [reflexivity|]. apply gams_set; auto. simpl. auto.
   - (* MAssume *) pose proof (G v) as Gv.
     destruct (s v) as [|cu|ck cb] eqn:E3.
     + right. eexists; split; [reflexivity|].
@@ -126,16 +209,19 @@ Proof.
       (intro w; rewrite aget_aset; destruct (Pos.eqb_spec w v); [subst; rewrite E3; simpl; auto | apply G]).
   - (* MDef *) destruct (Nat.eqb (aowned (aget a d)) 0) eqn:E; try discriminate. inversion H; subst.
     rewrite (owned0_of _ _ _ G E). right. eexists; split; [reflexivity|]. apply gams_set; auto.
+    assert (HB : bor_leb (match ow with Some w => aroot a w | None => BAlways end)
+                         (match ow with Some w => croot s w | None => BAlways end) = true).
+    { destruct ow; [apply aroot_sound; auto | reflexivity]. }
     destruct own, maynull, oc; simpl; auto.
   - (* MDefNull *) destruct (Nat.eqb (aowned (aget a d)) 0) eqn:E; try discriminate. inversion H; subst.
     rewrite (owned0_of _ _ _ G E). right. eexists; split; [reflexivity|]. apply gams_set; auto. simpl. auto.
   - (* MMove *) destruct (areadable (aget a sv)) eqn:ER; try discriminate.
     rewrite (areadable_sound _ _ ER (G sv)). right.
-    assert (HR : exists a1, (if mv then arelease false sv a else inl a) = inl a1 /\
-                 exists s1, (if mv then crelease false sv s else Next s) = Next s1 /\ gams a1 s1).
+    assert (HR : exists a1, (if mv then arelease false sv (BFrom d) a else inl a) = inl a1 /\
+                 exists s1, (if mv then crelease false sv (BFrom d) s else Next s) = Next s1 /\ gams a1 s1).
     { destruct mv.
-      - destruct (arelease false sv a) as [a1|e] eqn:ER2; try discriminate.
-        destruct (arelease_sound _ _ _ _ _ ER2 G) as [s1 [Hs1 G1]]. eauto.
+      - destruct (arelease false sv (BFrom d) a) as [a1|e] eqn:ER2; try discriminate.
+        destruct (arelease_sound _ _ _ _ _ _ ER2 G) as [s1 [Hs1 G1]]. eauto.
       - eauto. }
     destruct HR as [a1 [Ha1 [s1 [Hs1 G1]]]]. rewrite Ha1 in H. rewrite Hs1.
     destruct (Nat.eqb (aowned (aget a1 d)) 0) eqn:E; try discriminate. inversion H; subst.
@@ -144,6 +230,17 @@ Proof.
     destruct (aget a sv) as [|u|k b|k b u|] eqn:E4, (s sv) as [|cu|ck cb] eqn:E5; simpl in *;
       try discriminate; try contradiction; destruct own; simpl; auto;
       unfold ble in *; repeat match goal with b : bool |- _ => destruct b end; simpl in *; auto.
+Qed.
+
+(* the excluded event "use after the owner's last release", made explicit in the concrete semantics:
+   once w has given up its last (unjustified) reference, reading a value borrowed from w is a violation *)
+Lemma use_after_owner_release_is_violation : forall s w v s' oc,
+  s w = CObj 1 BNone -> s v = CObj 0 (BFrom w) -> v <> w ->
+  cmicro (MDec w false) oc s = Next s' -> cmicro (MRead v) oc s' = Viol.
+Proof.
+  intros s w v s' oc Hw Hv Hne H. simpl in H. unfold crelease in H. rewrite Hw in H. simpl in H.
+  inversion H; subst. simpl. unfold retarget, cset.
+  destruct (Pos.eqb_spec v w); [contradiction|]. rewrite Hv. rewrite Pos.eqb_refl. reflexivity.
 Qed.
 
 Lemma aleak_free_sound : forall a s, aleak_free a = None -> gams a s -> leak_free s.
@@ -190,8 +287,8 @@ Proof.
     + destruct (areadable (aget a v)) eqn:ER; try discriminate.
       rewrite (areadable_sound _ _ ER (G v)).
       destruct rc.
-      * destruct (arelease false v a) as [a1|e] eqn:ER2; try discriminate.
-        destruct (arelease_sound _ _ _ _ _ ER2 G) as [s1 [Hs1 G1]]. rewrite Hs1.
+      * destruct (arelease false v BNone a) as [a1|e] eqn:ER2; try discriminate.
+        destruct (arelease_sound _ _ _ _ _ _ ER2 G) as [s1 [Hs1 G1]]. rewrite Hs1.
         destruct (aleak_free a1) eqn:EL; try discriminate. inversion H; subst.
         repeat split; try discriminate. intros _. eapply aleak_free_sound; eauto.
       * destruct (aleak_free a) eqn:EL; try discriminate. inversion H; subst.
